@@ -76,6 +76,11 @@ def canon_atom(e: ast.AST) -> Tuple[str, bool]:
                 return x, True
             if (isinstance(op, ast.Eq) and k == 0) or (isinstance(op, ast.Lt) and k == 1) or (isinstance(op, ast.LtE) and k == 0):
                 return x, False
+        if isinstance(op, (ast.Is, ast.IsNot)) and isinstance(l, ast.Name) and isinstance(r, ast.Constant) and isinstance(r.value, bool):
+            # a flag parameter (documented bool) compared with True / False by identity is its truth value
+            a, pol = canon_atom(l)
+            same = isinstance(op, ast.Is)
+            return a, (pol if (r.value == same) else not pol)
         if isinstance(op, (ast.Is, ast.IsNot)):
             return f"{norm(l)} is {norm(r)}", isinstance(op, ast.Is)
         if isinstance(op, (ast.Eq, ast.NotEq)):
